@@ -31,6 +31,10 @@ func (propC04) Gen(r *Rng, run uint64, tier string) *Plan {
 		// timestamps of different containers a few nanoseconds apart
 		spec.NearTie = 0.5
 	}
+	if r.Bool(0.15) {
+		// a container that writes the very same line twice within one clock tick
+		spec.DupRec = 0.2
+	}
 	switch x := r.Intn(100); {
 	case x < 10:
 		spec.NMax = 2
